@@ -35,6 +35,10 @@ def enumerate_faults(project):
                 # whenever it notices, nothing may have been written
                 faults.append({"kind": "cover", "path": f["path"], "tail": tail})
                 break
+    if project.get("alias_pair"):
+        # one real file configured under two names (a symbolic link and its target, same patterns): whichever entry comes
+        # later in the config additionally names a pattern that occurs nowhere
+        faults.append({"kind": "alias_extra"})
     for sv in ("lower", "equal", "junk", "trailing"):
         faults.append({"kind": "reject", "sv": sv})
     faults.append({"kind": "nochange"})
@@ -109,6 +113,15 @@ class FaultPos:
                 for key_pats in project["cfg"]["file_patterns"]:
                     if key_pats[0] == f["path"]:
                         key_pats[1] = f["patterns"]
+        plain = [f for f in project["files"] if not f.get("bare") and not f.get("glob_group") and not f.get("globbed")
+                 and not f.get("repeated_entry") and not f.get("respelled") and not f.get("symlink_to")]
+        if project["vcs"] is None and plain and rng.random() < 0.25 and all(ch not in plain[0]["path"] for ch in " '"):
+            f = plain[0]
+            alias = "alias/" + f["path"].replace("/", "_")
+            project["files"].append({"path": alias, "patterns": list(f["patterns"]), "lines": f["lines"], "regime": f["regime"],
+                                     "shared_lines": 0, "symlink_to": f["path"]})
+            project["cfg"]["file_patterns"].append([alias, list(f["patterns"])])
+            project["alias_pair"] = [f["path"], alias]
         tree = legacy.tokenize_any(project["version_pattern"])
         flags = gp.gen_flags(rng, tree)
         flags.pop("pin_date", None)
@@ -143,11 +156,15 @@ class FaultPos:
         perms = [tuple(range(len(entries)))] + [p for p in perms if p != tuple(range(len(entries)))]
         perms = perms[:6]
 
-        def world_for(order_idx, cover_path=None, cover_pattern="{version}"):
+        def world_for(order_idx, cover_path=None, cover_pattern="{version}", alias_extra=False):
             perm = perms[order_idx % len(perms)]
             p2 = dict(project)
             cfg = dict(project["cfg"])
             cfg["file_patterns"] = [entries[i] for i in perm]
+            if alias_extra:
+                pair = project["alias_pair"]
+                later = [k for k, _v in cfg["file_patterns"] if k in pair][-1]
+                cfg["file_patterns"] = [[k, (list(v) + ["@zz never {version}"]) if k == later else v] for k, v in cfg["file_patterns"]]
             if cover_path is not None:
                 import fnmatch
                 hit = [k for k, v in cfg["file_patterns"] if k == cover_path or fnmatch.fnmatch(cover_path, k)]
@@ -177,7 +194,9 @@ class FaultPos:
             plans = case["faults"]
         for plan in plans:
             fault = plan["fault"]
-            if fault["kind"] == "cover":
+            if fault["kind"] == "alias_extra":
+                w = world_for(plan["order"], alias_extra=True)
+            elif fault["kind"] == "cover":
                 w = world_for(plan["order"], fault["path"], fault["tail"])
             else:
                 w = world_for(plan["order"], fault["path"] if fault["kind"] == "break+cover" else None)
@@ -219,7 +238,7 @@ class FaultPos:
             ctx.invocations += 1
             ctx.event(fault, plan["order"], plan["mode"], res.exit_code, invoker.digest_snapshot(res.after))
             ctx.fault("fs_" + fault["kind"] if fault["kind"] in ("break", "remove", "break+cover") else
-                      ("config_cover" if fault["kind"] == "cover" else "version_" + fault["kind"]))
+                      ("config_" + fault["kind"] if fault["kind"] in ("cover", "alias_extra") else "version_" + fault["kind"]))
             ctx.nontriv((runner.short_hash(project["cfg"]["file_patterns"]), runner.short_hash(fault), plan["order"], plan["mode"]))
             ctx.transition((fault["kind"], plan["mode"], res.exit_code, project["vcs"] is not None))
             detail = "fault %s order %d mode %s argv %s -> exit %s (%s)" % (
